@@ -136,31 +136,42 @@ fn c04_label_dup_undef() {
     kani::cover!(l1 == 0xFFFF && l2 == 1);
 }
 
-/// C19: after reset_state() every lookup misses, whatever was recorded (0..=3 entries, symbolic lines)
-#[kani::proof]
-#[kani::unwind(6)]
-#[kani::stub(crate::symbol::with_symbol_table, stubs::with_symbol_table)]
-#[kani::stub(alloc::fmt::format, stubs::fmt_format)]
-fn c19_reset_empties() {
-    let n: u8 = kani::any();
-    kani::assume(n <= 3);
-    if n >= 1 {
-        let _ = Label::insert("a", kani::any());
-    }
-    if n >= 2 {
-        let _ = Label::insert("b", kani::any());
-    }
-    if n >= 3 {
-        let _ = Label::insert("ab", kani::any());
-    }
-    reset_state();
-    assert!(table_len() == 0, "reset_state left entries behind");
-    assert!(matches!(Label::try_fill("a"), Label::Unfilled(_)));
-    assert!(matches!(Label::try_fill("b"), Label::Unfilled(_)));
-    assert!(matches!(Label::try_fill("ab"), Label::Unfilled(_)));
-    assert!(Label::insert("a", 7).is_ok(), "stale entry trips duplicate detection after reset");
-    kani::cover!(n == 3);
+/// C19: after reset_state() every lookup misses, whatever was recorded (N entries, N concrete per harness, symbolic lines)
+macro_rules! reset_empties {
+    ($name:ident, $n:expr) => {
+        #[kani::proof]
+        #[kani::unwind(6)]
+        #[kani::stub(crate::symbol::with_symbol_table, stubs::with_symbol_table)]
+        #[kani::stub(alloc::fmt::format, stubs::fmt_format)]
+        fn $name() {
+            if $n >= 1 {
+                let _ = Label::insert("a", kani::any());
+            }
+            if $n >= 2 {
+                let _ = Label::insert("b", kani::any());
+            }
+            if $n >= 3 {
+                let _ = Label::insert("ab", kani::any());
+            }
+            assert!(table_len() == $n);
+            reset_state();
+            assert!(table_len() == 0, "reset_state left entries behind");
+            let a = Label::try_fill("a");
+            assert!(matches!(a, Label::Unfilled(_)), "label of the previous source still resolves after reset");
+            core::mem::forget(a);
+            let ab = Label::try_fill("ab");
+            assert!(matches!(ab, Label::Unfilled(_)));
+            core::mem::forget(ab);
+            let l: u16 = kani::any();
+            assert!(Label::insert("a", l).is_ok(), "stale entry trips duplicate detection after reset");
+            let a2 = Label::try_fill("a");
+            assert!(matches!(a2, Label::Ref(v) if v == l));
+            kani::cover!(l == 7);
+        }
+    };
 }
+reset_empties!(c19_reset_empties_1, 1);
+reset_empties!(c19_reset_empties_3, 3);
 
 /// C19 H-static: StaticSource::new -> src -> reclaim, memory safety under Kani's pointer checks
 #[kani::proof]
